@@ -15,9 +15,14 @@ while read id prop commits; do
   WT=/tmp/vs/rv_${id}_$prop
   rm -rf $WT; git -C /repo worktree prune; git -C /repo worktree add -q $WT HEAD || exit 2
   ok=1
-  for c in $(echo $commits | tr ',' '\n' | tac); do
-    git -C $WT revert -n $c > /dev/null 2>&1 || ok=0
-  done
+  if [ -f seeded/reverts/$id.diff ]; then
+    # the automatic revert conflicts with later commits: hand-made reverse patch
+    git -C $WT apply /verif/seeded/reverts/$id.diff || ok=0
+  else
+    for c in $(echo $commits | tr ',' '\n' | tac); do
+      git -C $WT revert -n $c > /dev/null 2>&1 || ok=0
+    done
+  fi
   if [ $ok = 0 ]; then echo "$id $prop revert-conflict (skipped)"; git -C /repo worktree remove --force $WT; continue; fi
   out=$(OPTILAND_REPO=$WT ./check $prop 2>&1 | grep -E "^VIOLATION|^$prop (ok|FAIL)" | head -2 | tr '\n' ' ' | cut -c1-260)
   case "$out" in *VIOLATION*) r=REPORTED;; *) r=SILENT;; esac
